@@ -1157,6 +1157,18 @@ def getattr_(I, ctx, o, name, default=_MISSING):
         ga, _ = o.cls.lookup("__getattr__")
         if ga is not None:
             return I.call(ctx, ga, [o, name], {})
+        if o.label is not None:
+            init = _init_default(I, ctx, o.cls, name)
+            if init is not _MISSING:
+                # the class's __init__ gives this attribute a literal empty / constant value: a world object is taken to be
+                # in that state of it (recorded; only new attributes of changed code are ever met this way)
+                ctx.assumed_ext.add(f"world object attribute {o.cls.name}.{name} taken in the state __init__ gives it")
+                o.fields[name] = init
+                return init
+        if o.label is not None and default is _MISSING and _class_sets_attribute(o.cls, name):
+            # an object of the contract's world (not built by the code under verification) lacks an attribute its class
+            # assigns: the world is out of date with the class, which is a limit of the checker, not a failure of the code
+            raise Unsupported(f"the contract's world object '{o.label}' has no attribute '{name}', which {o.cls.name} sets at {ctx.where}")
         raise ExcVal(I.exc_classes["AttributeError"], (name,))
     if isinstance(o, SuperVal):
         mro = o.self.cls.mro() if isinstance(o.self, (Obj, TupleVal, SymRec, EnumMember)) and o.self.cls else \
@@ -1263,6 +1275,56 @@ def getattr_(I, ctx, o, name, default=_MISSING):
     if default is not _MISSING:
         return default
     raise Unsupported(f"attribute {name} of {o!r} at {ctx.where}")
+
+
+_SETS_CACHE = {}
+
+
+def _init_default(I, ctx, cls, name):
+    """the literal (empty container, None, number, string, bool) that __init__ of the class or of a repo base assigns to self.<name>"""
+    for c in cls.mro():
+        node = getattr(c, "node", None)
+        if node is None:
+            continue
+        for fn in node.body:
+            if isinstance(fn, ast.FunctionDef) and fn.name == "__init__":
+                for n in ast.walk(fn):
+                    tgt, val = None, None
+                    if isinstance(n, ast.Assign) and len(n.targets) == 1:
+                        tgt, val = n.targets[0], n.value
+                    elif isinstance(n, ast.AnnAssign) and n.value is not None:
+                        tgt, val = n.target, n.value
+                    if isinstance(tgt, ast.Attribute) and tgt.attr == name and isinstance(tgt.value, ast.Name) and tgt.value.id == "self":
+                        if isinstance(val, ast.Dict) and not val.keys:
+                            return DictVal()
+                        if isinstance(val, ast.List) and not val.elts:
+                            return ListVal([])
+                        if isinstance(val, ast.Call) and isinstance(val.func, ast.Name) and val.func.id in ("dict", "list", "set") and not val.args:
+                            return {"dict": DictVal, "list": lambda: ListVal([]), "set": SetVal}[val.func.id]()
+                        if isinstance(val, ast.Constant) and isinstance(val.value, (type(None), bool, int, float, str)):
+                            return val.value
+                        return _MISSING
+    return _MISSING
+
+
+def _class_sets_attribute(cls, name):
+    """some method of the class (or of a repo base class) assigns self.<name>"""
+    key = (id(cls), name)
+    if key in _SETS_CACHE:
+        return _SETS_CACHE[key]
+    found = False
+    for c in cls.mro():
+        node = getattr(c, "node", None)
+        if node is None:
+            continue
+        for n in ast.walk(node):
+            if isinstance(n, ast.Attribute) and n.attr == name and isinstance(n.ctx, ast.Store) and isinstance(n.value, ast.Name) and n.value.id == "self":
+                found = True
+                break
+        if found:
+            break
+    _SETS_CACHE[key] = found
+    return found
 
 
 def setattr_(I, ctx, o, name, v):
